@@ -20,29 +20,26 @@ Check C13_bytes_in :
     | Err k => fail_with E e_opened e_closed thr s1 now k
     | Panic _ => set_status E s1 Panicked
     end.
-Check C13_ws_reassembly_refuted :
-  (read_all false 3 w_init [RMsg (MBinary [1; 2; 3]); RMsg (MBinary [4; 5])] 8 = Some [4; 5; 3; 238; 238]
-   /\ stream_of [RMsg (MBinary [1; 2; 3]); RMsg (MBinary [4; 5])] = [1; 2; 3; 4; 5]) /\
-  ((let '(_, _, buf, r) := ws_read false w_init [RMsg (MBinary [1; 2; 3]); RMsg (MBinary [4; 5; 6])] (repeat 238 4) in
-    (len buf, r)) = (4, ROk 6)
-   /\ read_all false 3 w_init [RMsg (MBinary [1; 2; 3]); RMsg (MBinary [4; 5; 6])] 4 = None) /\
-  read_all false 4 w_init [RMsg (MBinary [1; 2; 3; 4; 5; 6])] 4 = Some [1; 2; 3; 4; 1; 2].
+Check C13_ws_reassembly : forall size sock rounds,
+  0 < size -> no_err sock = true -> (length (stream_of sock) + length sock <= rounds)%nat ->
+  read_all rounds w_init sock size = Some (stream_of sock).
+Check C13_ws_read_bounded : forall size w sock,
+  0 < size -> w_final w = false -> no_err sock = true ->
+  let '(w', sock', data, res) := ws_read w sock size in
+  len data <= size /\ res = (if 0 <? len data then ROk (len data) else RErrWouldBlock) /\
+  w_final w' = false /\ no_err sock' = true.
 Check C13_ws_write_refuted :
   let '(o, done) := drive_batch out_init [9; 8; 7] [TBlock; TOk] in
   done = true /\ o_wire o = [[9; 8; 7]; [9; 8; 7]].
-Check C13_ws_reassembly : forall size ds,
-  Forall (fun d => 0 < len d /\ len d < size) ds ->
-  read_all false (length ds) w_init (paced ds) size = Some (stream_of (paced ds)).
-Check C13_ws_read_bounded : forall size d r,
-  0 < len d -> len d < size ->
-  let '(_, _, buf, res) := ws_read false w_init (RMsg (MBinary d) :: RWouldBlock :: r) (repeat 238 (N.to_nat size)) in
-  res = ROk (len d) /\ len d <= len buf.
+Check C13_ws_write : forall o batch results,
+  results <> [] -> ~ known_d15b results ->
+  drive_batch o batch results = (mkOut [] (o_wire o ++ o_queue o ++ [batch]), true).
 Check C13_result_exactly_once : forall evs id,
   cnt id (submitted evs) = 1%nat ->
   accounted id (rrun false evs) = 1%nat /\ r_lost (rrun false evs) = [] /\
   (r_alive (rrun false evs) = false -> results_of id (rrun false evs) = 1%nat).
-Check C13_result_exactly_once_threaded_running : forall evs id,
-  loop_exits evs = false -> cnt id (submitted evs) = 1%nat ->
+Check C13_result_exactly_once_threaded : forall evs id,
+  ~ known_d16 evs -> cnt id (submitted evs) = 1%nat ->
   accounted id (rrun true evs) = 1%nat /\ r_lost (rrun true evs) = [].
 Check C13_result_exactly_once_refuted :
   (let s := rrun true [RSubmit 1; RSubmit 2; RTake; RShutdown] in
@@ -50,10 +47,10 @@ Check C13_result_exactly_once_refuted :
   (let s := rrun true [RSubmit 1; RTake; RDie] in results_of 1 s = 0%nat /\ r_lost s = [1]).
 Print Assumptions C13_bytes_out.
 Print Assumptions C13_bytes_in.
-Print Assumptions C13_ws_reassembly_refuted.
-Print Assumptions C13_ws_write_refuted.
 Print Assumptions C13_ws_reassembly.
 Print Assumptions C13_ws_read_bounded.
+Print Assumptions C13_ws_write_refuted.
+Print Assumptions C13_ws_write.
 Print Assumptions C13_result_exactly_once.
-Print Assumptions C13_result_exactly_once_threaded_running.
+Print Assumptions C13_result_exactly_once_threaded.
 Print Assumptions C13_result_exactly_once_refuted.
